@@ -994,6 +994,36 @@ func genC06(r *Rng, tier string, emit func(string, Tok)) {
 		emit("clean", scenario{kind: 1, optSize: 188, fault: -1, prsSpec: L(I(1)), data: data, ops: []int{3}}.tok())
 		emit(fmt.Sprintf("burst-%d", burst), scenario{kind: 1, optSize: 188, fault: -1, prsSpec: L(I(1)), data: d, ops: []int{3}}.tok())
 	}
+	// payload-less packets (PCR only) with the discontinuity indicator set, sprinkled inside long units of their PID:
+	// every single deletion and a few bursts next to them (such a packet neither carries a counter step nor payload;
+	// a loss beside it must still be noticed at the next payload packet)
+	for k := 0; k < scale(tier, 3, 20); k++ {
+		m := genRefStream(r, streamOpts{PESPIDs: 1, UnitsPerPID: 3, MaxPES: 300, Tables: true, PESTotals: []int{184 * r.Range(6, 9), 184 * r.Range(6, 9), 184 * 2}, Unbounded: true})
+		base := m.bytes()
+		var data []byte
+		lastCC := map[uint16]byte{}
+		for i := 0; i < len(base)/188; i++ {
+			b := pktAt(base, i)
+			data = append(data, b...)
+			pid := uint16(b[1]&0x1f)<<8 | uint16(b[2])
+			if b[3]&0x10 != 0 {
+				lastCC[pid] = b[3] & 15
+			}
+			if pid >= 0x20 && pid != 0x1fff && b[3]&0x10 != 0 && r.Chance(1, 3) {
+				p := &refPacket{PID: pid, CC: lastCC[pid], AFLen: 183, Disc: true, PCR: true}
+				data = append(data, p.encode()...)
+			}
+		}
+		np := len(data) / 188
+		emit("clean", scenario{kind: 1, optSize: 188, fault: -1, prsSpec: L(I(1)), data: data, ops: []int{3}}.tok())
+		for i := 0; i < np; i++ {
+			if pktAt(data, i)[3]&0x10 == 0 {
+				continue // deleting a payload-less packet changes nothing
+			}
+			d := append(append([]byte{}, data[:188*i]...), data[188*(i+1):]...)
+			emit("del-one-near-pcr-only", scenario{kind: 1, optSize: 188, fault: -1, prsSpec: L(I(1)), data: d, ops: []int{3}}.tok())
+		}
+	}
 	// K2: the first packet of a unit is lost and the continuation begins with a start code
 	for k := 0; k < scale(tier, 3, 20); k++ {
 		var d []byte
